@@ -400,7 +400,9 @@ var escapeNames = []string{"q\"uote", "back\\slash", "nl\\n", "tab\tx", "ctl\x01
 
 var unknownNames = []string{"unknownKw", "foo", "Weird name", "é", "a\"b", "b\\c", "patternProperty", "$comment", "$id", "const", "if", "0", "-x", "xfoo", "x_y"}
 var extSuffixes = []string{"foo", "bar", "nullable", "go-name", "order2", "é", "a b", "q\"", "b\\n", "0", "-", "UPPER", "ctl\x02", "a/b~c%d#e?f"}
-var mimeTypes = []string{"application/json", "text/plain", "application/xml", "*/*", "application/vnd.x+json; charset=utf-8"}
+var mimeTypes = []string{"application/json", "text/plain", "application/xml", "*/*", "application/vnd.x+json; charset=utf-8",
+	// the same media type in other spellings (letter case, blanks around ';', parameter order): different texts, kept as written
+	"application/vnd.x+json;charset=utf-8", "Application/JSON", "text/plain;  Charset=UTF-8 ; format=flowed", "text/plain; format=flowed; charset=UTF-8"}
 var niceStrings = []string{"a", "text", "Some description.", "é", "日本", "with \"quotes\"", "back\\slash", "line\nbreak", "tab\t", "<b>&</b>", "l s", " ", "0", "null", "\x01"}
 var canonicalRefs = []string{"#/definitions/x", "#/definitions/a~1b", "other.json#/definitions/y", "http://host/a.json#/d", "sub/o.json", "#/parameters/p", "#/responses/r",
 	// names that a pointer has to escape, in their canonical spelling: "100%", "a%20b" (a literal percent sign), "a b", "{id}", "é", "Cats&Dogs"
